@@ -13,7 +13,7 @@ RULE = ("42 command classes x every opcode-table entry under which a command set
         "deviation; distinct = distinct (class, table, tuple).")
 ASSUMPTIONS = [
     "oracle: vf/spec/cdb.py (Appendix A of DESIGN.md), whole-CDB comparison with the spec encoder: length, opcode, service action, every field, every other bit zero",
-    "arguments that size a buffer the constructor allocates (allocation length, READ/WRITE transfer length) are capped at 2^22 (quick) / 2^24 (thorough) bytes; the high bits of those fields are exercised through marshall_cdb in C02",
+    "arguments that size a buffer the constructor allocates (allocation length, READ/WRITE/READ CD transfer length) are capped at 2^22 (quick) / 2^24 (thorough) bytes in the main pass; a second 'wide' pass covers their whole alphabet (up to 2^32-1) with bytearray(n) inside pyscsi.pyscsi.scsi_command shadowed by a length-only stand-in for n > 2^20 (harness-side, process-local; buffers are C03's subject and are judged there without the shim)",
     "parameter-list-length fields are judged against len(cmd.dataout) here (position only); the list itself is C05's subject",
 ]
 
@@ -27,20 +27,67 @@ def partitions(tier):
     for name, c in S.CLASSES.items():
         for st, key in c["tables"]:
             parts.append([name, st, key])
+    # "wide" pass: the buffer-sizing arguments over their *whole* alphabet (see lazy_buffers)
+    for name, c in S.CLASSES.items():
+        if any(f in S.ALLOCATING for f in c["args"].values()):
+            st, key = c["tables"][0]
+            parts.append([name, st, key, "wide"])
     return parts
+
+
+class BigBuf(object):
+    """stands for a zero-filled buffer too large to allocate; only its length exists"""
+
+    def __init__(self, n):
+        self.n = n
+
+    def __len__(self):
+        return self.n
+
+
+class lazy_buffers(object):
+    """While active, `bytearray(n)` evaluated inside pyscsi.pyscsi.scsi_command (where every constructor sizes its data
+    buffers) yields a length-only object for n above 2^20, so READ(16) with TRANSFER LENGTH 2^31 can be *constructed* and its
+    CDB judged without touching 2^40 bytes of memory.  A harness-side shadowing of a module global in this process only; the
+    source is not modified, and if a future version sizes buffers elsewhere the pass degrades to a MemoryError reported as
+    a machinery error, never as a violation."""
+
+    def __enter__(self):
+        import builtins
+        import pyscsi.pyscsi.scsi_command as m
+        self.m = m
+
+        def shim(*a):
+            if len(a) == 1 and isinstance(a[0], int) and a[0] > (1 << 20):
+                return BigBuf(a[0])
+            return builtins.bytearray(*a)
+        m.bytearray = shim
+        return self
+
+    def __exit__(self, *exc):
+        try:
+            del self.m.bytearray
+        except AttributeError:
+            pass
+        return False
 
 
 def run_case(case, obs=None):
     """case = [class, set, key, point] -> violations"""
-    name, st, key, point = case
+    name, st, key, point = case[:4]
+    wide = len(case) > 4 and case[4] == "wide"
     c = S.CLASSES[name]
     op = CS.get_opcode(st, key)
     if op is None:
         return []
     cls = CS.get_class(name)
-    kw = CS.build_kwargs(name, point, ata_blocksize=512 if name in S.ATA_LBA_BYTES else None)
+    kw = CS.build_kwargs(name, point, ata_blocksize=512 if name in S.ATA_LBA_BYTES else None, nodata=wide)   # wide pass: CDB only
     try:
-        cmd = cls(op, **kw)
+        if wide:
+            with lazy_buffers():
+                cmd = cls(op, **kw)
+        else:
+            cmd = cls(op, **kw)
     except Exception as e:
         return [("construct/%s.%s/%s" % (st, key, name), "%s(%s.%s, %r) raised %s: %s" % (name, st, key, point, type(e).__name__, e))]
     cdb = bytes(cmd.cdb)
@@ -82,15 +129,21 @@ def replay(case):
 
 def run_partition(part, tier, seed):
     acc = Acc(seed)
-    name, st, key = part
+    wide = len(part) > 3
+    name, st, key = part[:3]
     b = bounds(tier)
     if CS.get_opcode(st, key) is None:
         acc.add("tables_not_offering", 1)
         # still one evaluation so the partition is visible
         return acc
-    for point, r in CS.points(name, b["k"], b["maxbuf"]):
-        case = [name, st, key, point]
-        acc.case(case, nontrivial=r > 0, key=(name, st, key, tuple(sorted(point.items()))))
+    if wide:
+        pts = ((p, r) for p, r in CS.points(name, min(b["k"], 2), 1 << 64) if any(
+            S.CLASSES[name]["args"].get(a) in S.ALLOCATING and v > b["maxbuf"] // (3072 if name == "ReadCd" else 1) for a, v in p.items()))
+    else:
+        pts = CS.points(name, b["k"], b["maxbuf"])
+    for point, r in pts:
+        case = [name, st, key, point] + (["wide"] if wide else [])
+        acc.case(case, nontrivial=r > 0, key=(name, st, key, wide, tuple(sorted(point.items()))))
         obs = []
         v = run_case(case, obs)
         for k, what in v:
